@@ -505,7 +505,7 @@ public:
         }
 
         if constexpr(IsPeriodic){
-            assert(std::size(indexes) == getNbNeighborsPerLeaf());
+            assert(std::size(indexes) == (upperExclusion ? getNbNeighborsPerLeaf()/2 : getNbNeighborsPerLeaf()));
         }
 
         return indexes;
